@@ -97,6 +97,7 @@ class Rec(object):
         self.got = []
         self.open_ctx = []
         self.open_ov = []
+        self.closing = False
         self.outcome = None
 
 
@@ -574,9 +575,13 @@ def exec_block(env, rec, me, body):
                     raise
                 env.delivered_caught += 1
                 rec.got.append(["caught", canon(exc_key(e))])
-            except BaseException:
+            except BaseException as e:
                 # generator closed (abandoned task) or a foreign exception: keep the run stack sane
                 env.run_stack.append(tid)
+                if isinstance(e, GeneratorExit):
+                    # the generator of an abandoned task is being closed -- possibly by the garbage collector, in
+                    # the middle of a later computation: from here on this body must only unwind, never go on
+                    rec.closing = True
                 raise
             else:
                 enter_body(env, rec, me)
@@ -604,8 +609,8 @@ def exec_block(env, rec, me, body):
             try:
                 yield from exec_block(env, rec, me, st["body"])
             except CATCHABLE as e:
-                if rec.handle is not None and rec.handle.is_computed():
-                    raise      # the generator of an already failed task is being closed: do not go on
+                if rec.closing or (rec.handle is not None and rec.handle.is_computed()):
+                    raise      # the generator of a failed / abandoned task is being closed: do not go on
                 rec.got.append(["caught", canon(exc_key(e))])
         elif op == "sync":
             sc = st["task"]
@@ -619,7 +624,7 @@ def exec_block(env, rec, me, body):
                     val = run_task(env, sc)
                 rec.got.append(["sync", shape(val)])
             except CATCHABLE as e:
-                if not st["catch"]:
+                if not st["catch"] or rec.closing:
                     raise
                 rec.got.append(["syncexc", canon(exc_key(e))])
             finally:
@@ -854,7 +859,26 @@ def run_program(prog, check_c04=False, check_c06=False, reset=True, options=None
     env.waits.pop()
     env.sched_tasks_left = len(sch._tasks)
     env.active_after = scheduler.get_active_task()
+    finalize_abandoned(env)
     return env
+
+
+def finalize_abandoned(env):
+    """Closes the generators of tasks the computation abandoned (children of a task that failed while
+    suspended, tasks left behind by an escaping exception).  The garbage collector would do the same at an
+    arbitrary later moment -- possibly in the middle of the next case; doing it here keeps every case a
+    function of its input."""
+    for rec in list(env.recs.values()) + list(env.probes):
+        h = rec.handle
+        if h is None or h.is_computed():
+            continue
+        g = getattr(h, "_generator", None)
+        if g is not None:
+            rec.closing = True
+            try:
+                g.close()
+            except BaseException:
+                pass
 
 
 def event_grammar(env):
